@@ -59,7 +59,7 @@ func LoadAnyCerts(paths []string) (any AnyCerts, err error) {
 // Parse one or more PGP certificates from the given possibly-armored blob
 func parsePGP(blob []byte) (openpgp.EntityList, error) {
 	reader := io.Reader(bytes.NewReader(blob))
-	if blob[0] == '-' {
+	if len(blob) != 0 && blob[0] == '-' {
 		block, err := armor.Decode(reader)
 		if err != nil {
 			return nil, err
